@@ -109,7 +109,7 @@ class LockstepSession(Session):
                 except KeyError:
                     strat = db.eqv_rule_to_strategy[key]
                 rule = strat(cls)
-                got = sorted(self.classdb.get_label(c) for c in rule.children if not c.is_empty())
+                got = sorted(self.classdb.get_label(c) for c in rule.children if not (rule.possibly_empty and c.is_empty()))
                 rec.update(got=[int(x) for x in got], ok=True)
             except Exception as e:
                 rec["err"] = type(e).__name__
